@@ -394,6 +394,26 @@ func runsThenJumps(r *vf.Run, check func(m *mapper, a uint32)) {
 						n++
 					}
 				}
+				// polling: one address asked again and again (a flag in work RAM, a status byte), then
+				// another address, asked once or twice, is judged
+				polled := page<<13 | uint32(g.Intn(0x2000))
+				for k := []int{2, 3, 15, 16, 17, 31, 32, 33, 100, 255, 256, 257}[g.Intn(12)]; k > 0; k-- {
+					if dir == 0 {
+						_, _ = m.p2b(polled)
+					} else {
+						_, _ = m.b2p(polled)
+					}
+				}
+				other := uint32(g.Intn(2048))<<13 | uint32(g.Intn(0x2000))
+				for k := g.Intn(3); k > 0; k-- {
+					if dir == 0 {
+						_, _ = m.p2b(other)
+					} else {
+						_, _ = m.b2p(other)
+					}
+				}
+				check(m, other)
+				n++
 			}
 		}
 		r.Eval(n)
